@@ -47,10 +47,21 @@ HexModeFailing(r) ==
           /\ Parse(SubSeq(r.lines, 2, Len(r.lines) - 1), Template(16, 4)) = r.data
           /\ Parse(r.lines, Template(16, 4)) = r.data }
 
+\* kind "file": lines = a dump file (data rendered in r.fmt plus title / comment / blank lines), result = the
+\* bytes the real dump-file reader recovered.  Where the extra lines are comments (they contribute no byte
+\* under either format) the reader must recover exactly the data.
+FileFailing(r) ==
+    LET pure == /\ Parse(r.lines, Fmt(r.fmt)) = r.data
+                /\ \A k \in 1..Len(r.lines) :
+                      IsComment(r.lines[k]) \/ ParseLine(r.lines[k], Fmt(r.fmt)) # <<>>
+                /\ ReadDumpFile(r.lines, <<FmtBMC, FmtPre>>) = r.data
+    IN  {c \in {"FileReadsBack"} : pure /\ r.result # r.data}
+
 Failing(r) ==
     IF ~r.shape_ok THEN {"Shape"}
     ELSE IF r.kind = "dump" THEN DumpFailing(r)
     ELSE IF r.kind = "parse" THEN ParseFailing(r)
+    ELSE IF r.kind = "file" THEN FileFailing(r)
     ELSE HexModeFailing(r)
 
 Init == i = 0 /\ TLCSet(1, 0)
